@@ -57,7 +57,7 @@ Qed.
 Lemma scan_in : forall ps ret kept vs, scan ps ret = inr (kept, vs) ->
   forall x t, In (PId x, t) ps -> contains "inter_" x = true ->
     prefix "inter_" x = true /\
-    (reserved x = true -> ret = false /\ exists k a, x = end_name k /\ oneshot_get_type t = Some a /\ In (IEnd k a) vs).
+    (reserved x = true -> ret = false /\ exists k a, x = end_name k /\ oneshot_get_type t (end_type_name k) = Some a /\ In (IEnd k a) vs).
 Proof.
   induction ps as [|q ps IH]; intros ret kept vs H x t HI HC; [destruct HI|].
   simpl in H. destruct HI as [->|HI].
@@ -65,14 +65,14 @@ Proof.
     destruct (prefix "inter_" x) eqn:P; [|discriminate]. split; [reflexivity|].
     intro R. rewrite (reserved_second x P) in R.
     destruct (String.eqb (drop 6 x) "send") eqn:E1.
-    + destruct ret; [discriminate|]. destruct (oneshot_get_type t) eqn:O; [|discriminate].
+    + destruct ret; [discriminate|]. destruct (oneshot_get_type t "Sender") eqn:O; [|discriminate].
       destruct (scan ps false) as [|[k v]]; [discriminate|]. inversion H; subst.
-      split; [reflexivity|]. exists ESend, s. repeat split; [|left; reflexivity].
+      split; [reflexivity|]. exists ESend, s. split; [|split; [exact O|left; reflexivity]].
       apply prefix_drop in P. apply String.eqb_eq in E1. simpl String.length in P. rewrite E1 in P. exact P.
     + rewrite orb_false_l in R. rewrite R in H.
-      destruct ret; [discriminate|]. destruct (oneshot_get_type t) eqn:O; [|discriminate].
+      destruct ret; [discriminate|]. destruct (oneshot_get_type t "Receiver") eqn:O; [|discriminate].
       destruct (scan ps false) as [|[k v]]; [discriminate|]. inversion H; subst.
-      split; [reflexivity|]. exists ERecv, s. repeat split; [|left; reflexivity].
+      split; [reflexivity|]. exists ERecv, s. split; [|split; [exact O|left; reflexivity]].
       apply prefix_drop in P. apply String.eqb_eq in R. simpl String.length in P. rewrite R in P. exact P.
   - assert (exists kept' vs', scan ps ret = inr (kept', vs') /\ incl vs' vs) as (kept' & vs' & S & INC).
     { destruct (is_ivar q).
@@ -100,8 +100,8 @@ Proof.
   intros x t ret v H R. unfold some_inter_var in H. destruct (prefix "inter_" x) eqn:P; [|discriminate].
   rewrite (reserved_second x P) in R.
   destruct (String.eqb (drop 6 x) "send").
-  - destruct ret; [discriminate|]. destruct (oneshot_get_type t); [|discriminate]. inversion H; eauto.
-  - rewrite orb_false_l in R. rewrite R in H. destruct ret; [discriminate|]. destruct (oneshot_get_type t); [|discriminate]. inversion H; eauto.
+  - destruct ret; [discriminate|]. destruct (oneshot_get_type t "Sender"); [|discriminate]. inversion H; eauto.
+  - rewrite orb_false_l in R. rewrite R in H. destruct ret; [discriminate|]. destruct (oneshot_get_type t "Receiver"); [|discriminate]. inversion H; eauto.
 Qed.
 
 Lemma is_ivar_reserved : forall x t, reserved x = true -> is_ivar (PId x, t) = true.
@@ -249,7 +249,7 @@ Qed.
 (* ---- T3: a declared end: typed channel, the field gets that end, the handle returns the opposite end over the same type ---- *)
 Theorem end_returns_opposite : forall ret ps o, gen true ret ps = Ok o ->
   forall k t, In (PId (end_name k), t) ps ->
-    ret = false /\ exists a, oneshot_get_type t = Some a /\
+    ret = false /\ exists a, oneshot_get_type t (end_type_name k) = Some a /\
       lo_ret o = Some (opp k, a) /\ lo_tail o = Some (opp k) /\ pre_chans (lo_pre o) = [Some a] /\
       In (end_name k, t) (lo_fields o) /\ ~ In (end_name k) (map fst (lo_params o)).
 Proof.
@@ -374,33 +374,46 @@ Proof.
   - right. apply IH; exact H.
 Qed.
 
-(* FULL STRENGTH (false, F10):  forall ret ps o, gen true ret ps = Ok o -> coherent ps o. *)
-Theorem end_type_coherent_guarded : forall ret ps o, known_class ps = false -> gen true ret ps = Ok o -> coherent ps o.
+Lemma oneshot_get_type_inv : forall t target a, oneshot_get_type t target = Some a -> exists txt, t = TPath txt target (ATy a).
 Proof.
-  intros ret ps o KC H k t D. pose proof (declared_end_in _ _ _ D) as HI.
-  destruct (end_returns_opposite _ _ _ H _ _ HI) as (_ & a & O & R & _ & PC & _).
-  unfold known_class in KC. apply negb_false_iff in KC. rewrite forallb_forall in KC. specialize (KC _ HI).
-  unfold end_type_named, end_of in KC. simpl in KC.
-  assert (end_of (PId (end_name k), t) = Some (k, t)) as EO by (destruct k; reflexivity).
-  unfold end_of in EO. simpl in EO. rewrite EO in KC.
-  destruct t as [txt last arg|txt]; [|discriminate]. apply String.eqb_eq in KC. subst last.
-  simpl in O. destruct arg; try discriminate. inversion O; subst. exists txt, a. auto.
+  intros t target a H. destruct t as [txt last arg|txt]; [|discriminate]. simpl in H. destruct arg; try discriminate.
+  destruct (String.eqb last target) eqn:E; [|discriminate]. apply String.eqb_eq in E. inversion H; subst. eauto.
 Qed.
 
-Lemma end_type_coherent_refuted : exists ps o, known_class ps = true /\ gen true false ps = Ok o /\ ~ coherent ps o.
+(* full strength: every accepted method *)
+Theorem end_type_coherent : forall ret ps o, gen true ret ps = Ok o -> coherent ps o.
 Proof.
-  exists [(PId "inter_send", TPath "Vec<u8>" "Vec" (ATy "u8"))]. eexists. split; [reflexivity|]. split; [vm_compute; reflexivity|].
-  intro C. destruct (C ESend _ eq_refl) as (txt & a & E & _). discriminate.
+  intros ret ps o H k t D. pose proof (declared_end_in _ _ _ D) as HI.
+  destruct (end_returns_opposite _ _ _ H _ _ HI) as (_ & a & O & R & _ & PC & _).
+  destruct (oneshot_get_type_inv _ _ _ O) as (txt & ->). exists txt, a. auto.
+Qed.
+
+(* rule: an end parameter whose type does not name the end it asks for (`inter_send: Vec<u8>`, `inter_recv: ..::Sender<u8>`) is refused *)
+Theorem rule_wrong_end_type : forall ret ps q, In q ps -> is_end_param q = true -> end_type_named q = false ->
+  exists d, gen true ret ps = Diag d.
+Proof.
+  intros ret ps [p t] HI E N. apply not_ok_diag. intros o H.
+  unfold is_end_param in E. simpl in E. destruct p as [x| |l]; try discriminate.
+  assert (exists k, x = end_name k) as (k & ->).
+  { unfold reserved in E. apply orb_true_iff in E. destruct E as [E|E]; apply String.eqb_eq in E; [exists ESend|exists ERecv]; exact E. }
+  destruct (end_returns_opposite _ _ _ H _ _ HI) as (_ & a & O & _).
+  destruct (oneshot_get_type_inv _ _ _ O) as (txt & ->).
+  unfold end_type_named, end_of in N. simpl in N. destruct k; simpl in N; discriminate.
 Qed.
 
 (* hypotheses are satisfiable: a method with an ordinary, a pattern, a getter and an end parameter *)
 Example ex_ps : list param :=
   [(PId "a", TPath "u8" "u8" ANone); (PId "inter_send", TPath "oneshot::Sender<u8>" "Sender" (ATy "u8"));
    (PNode [PId "b"; PId "c"], TOther "(u8, u8)"); (PId "inter_name", TPath "String" "String" ANone)].
-Example ex_ok : exists o, gen true false ex_ps = Ok o /\ known_class ex_ps = false
+Example ex_ok : exists o, gen true false ex_ps = Ok o
   /\ lo_params o = [("a", TPath "u8" "u8" ANone); ("b_c", TOther "(u8, u8)")]
   /\ lo_ret o = Some (ERecv, "u8") /\ pre_gets (lo_pre o) = [("inter_name", "inter_get_name")].
 Proof. eexists. split; [vm_compute; reflexivity|]. repeat split. Qed.
+Example ex_wrong : is_end_param (PId "inter_send", TPath "Vec<u8>" "Vec" (ATy "u8")) = true
+  /\ end_type_named (PId "inter_send", TPath "Vec<u8>" "Vec" (ATy "u8")) = false
+  /\ gen true false [(PId "inter_send", TPath "Vec<u8>" "Vec" (ATy "u8"))] = Diag DEndType
+  /\ gen true false [(PId "inter_recv", TPath "oneshot::Sender<u8>" "Sender" (ATy "u8"))] = Diag DEndType.
+Proof. vm_compute. repeat split. Qed.
 Example ex_both : 2 <= List.length (filter is_end_param
   [(PId "inter_send", TPath "S<u8>" "S" (ATy "u8")); (PId "inter_recv", TPath "R<u8>" "R" (ATy "u8"))]).
 Proof. vm_compute. lia. Qed.
